@@ -818,18 +818,11 @@ mdl::Alphabet dict_content(const ET& a) {
 	return sigma;
 }
 
-void op_complement(const Step& s) {
-	ETH& a = H(s, 0); TA ma = a.model; int al = a.alpha;
-	mdl::Alphabet sigma = dict_content(*a.aut);
-	// sigma is the dictionary content at the call: other modules (the command-line steps, text loads) register symbols in the default alphabet too
-	api_begin();
-	api_site("et_complement", BUDGET_INCONCLUSIVE, 3000000);
-	ET r = a.aut->Complement();
-	api_end();
-	if (armed("C06")) {
+// C06's oracle for one Complement call: `r` is read by iteration and judged against the model of the operand over the dictionary content at the call
+void judge_complement(const ET& operand, const TA& ma, const ET& r, const mdl::Alphabet& sigma, const char* site) {
 		count(c_oracle_evals);
 		// read the result by iteration and interpret its symbol NUMBERS through the operand's alphabet
-		TA got; auto bt = a.aut->GetAlphabet()->GetSymbolBackTransl();
+		TA got; auto bt = operand.GetAlphabet()->GetSymbolBackTransl();
 		for (const ET::Transition& t : r) {
 			Rule x; x.parent = long(t.GetParent()); for (StateType c : t.GetChildren()) x.ch.push_back(long(c));
 			// a symbol number the alphabet does not know, or one used with another rank, is a symbol outside S; whether that matters
@@ -841,14 +834,56 @@ void op_complement(const Step& s) {
 		for (StateType f : r.GetFinalStates()) got.finals.insert(long(f));
 		std::string why; int ok = mdl::is_complement(ma, got, sigma, &why);
 		if (ok < 0) count(c_model_too_big);
-		else if (!ok) violation("C06.complement-language", "et_complement", why + "\n  automaton : " + mdl::to_lit(ma) + "\n  complement: " + mdl::to_lit(got));
-		check_operands_unchanged(s, a, nullptr, "C06");
+		else if (!ok) violation("C06.complement-language", site, why + "\n  automaton : " + mdl::to_lit(ma) + "\n  complement: " + mdl::to_lit(got));
 		uint64_t ah = 5; for (auto& y : sigma) ah = mix64(ah, hash_str(y.first) + uint64_t(y.second));
 		note_ta_case(ma, nullptr, ah);
 		(mdl::is_empty(ma) ? count(c_lang_empty) : count(c_lang_nonempty));
+}
+
+void op_complement(const Step& s) {
+	ETH& a = H(s, 0); TA ma = a.model; int al = a.alpha;
+	mdl::Alphabet sigma = dict_content(*a.aut);
+	// sigma is the dictionary content at the call: other modules (the command-line steps, text loads) register symbols in the default alphabet too
+	api_begin();
+	api_site("et_complement", BUDGET_INCONCLUSIVE, 3000000);
+	ET r = a.aut->Complement();
+	api_end();
+	if (armed("C06")) {
+		judge_complement(*a.aut, ma, r, sigma, "et_complement");
+		check_operands_unchanged(s, a, nullptr, "C06");
 	}
 	// the result carries the global alphabet whatever the operand's was: keep it only when that is sound
 	if (al == 0) { add_result(s, std::move(r), 0); after_mutation(s, "et_complement"); }
+}
+
+// Complement over a short-lived private alphabet: the alphabet, the automaton and the result exist only inside this step.
+// A later step of the same kind creates another alphabet (other symbols, other ranks) that the allocator may place at the
+// address the previous one had: "for all alphabets" includes alphabets that come and go within one process.
+void op_complement_local(const Step& s) {
+	TA lit = mdl::from_lit(s.lit); long flags = s.arg(0), mask = s.arg(1);
+	static const mdl::Sym X[] = {{"a", 0}, {"b", 1}, {"c", 2}, {"d", 0}, {"e", 1}, {"f", 2}, {"g", 0}, {"h", 2}};
+	std::set<std::string> used; for (auto& y : lit.symbols()) used.insert(y.first);
+	VATA::Parsing::TimbukParser parser; VATA::AutBase::StateDict dict;
+	std::string text = mdl::to_timbuk(lit, "q", nullptr, (flags & 1) != 0);
+	api_begin();
+	{
+		ET::AlphabetType alpha(new ET::OnTheFlyAlphabet());
+		ET a; a.SetAlphabet(alpha);
+		auto reg = [&]() { auto tr = alpha->GetSymbolTransl(); for (int i = 0; i < 8; ++i) if (((mask >> i) & 1) && !used.count(X[i].first)) (*tr)(ET::StringRank(X[i].first, size_t(X[i].second))); };
+		if (flags & 2) reg();
+		a.LoadFromString(parser, text, dict);
+		if (!(flags & 2)) reg();
+		std::map<long, long> m; bool ok = true;
+		for (long q : lit.states()) { auto it = dict.FindFwd("q" + std::to_string(q)); if (it == dict.EndFwd()) ok = false; else m[q] = long(it->second); }
+		TA ma = mdl::rename(lit, m);
+		mdl::Alphabet sigma = dict_content(a);
+		api_site("et_complement:local-alphabet", BUDGET_INCONCLUSIVE, 3000000);
+		ET r = a.Complement();
+		api_end();
+		if (armed("C06") && ok) judge_complement(a, ma, r, sigma, "et_complement:local-alphabet");
+		api_begin();
+	}
+	api_end();
 }
 
 void op_witness(const Step& s) {
@@ -1021,14 +1056,23 @@ void op_sim(const Step& s) {
 	ETH& a = H(s, 0); bool up = s.arg(1) & 1; Rng r(uint64_t(s.arg(2)) + 29);
 	api_begin();
 	std::unique_ptr<ET> work; TA wm = a.model;
-	if (up) {
+	// direct mode: the handle's own object (with whatever history it has: assigned over, asked before) when its occurring states
+	// already are 0..n-1 and, for the upward relation, it has no useless states
+	bool direct = false;
+	if (s.arg(3) & 2) {
+		std::set<long> st = wm.states(); direct = !st.empty() && *st.begin() == 0 && *st.rbegin() == long(st.size()) - 1;
+		if (direct && up && !(mdl::trim_useless(wm) == wm)) direct = false;
+	}
+	if (direct) { }
+	else if (up) {
 		// upward simulation is specified for automata without useless states
 		work.reset(new ET(a.aut->RemoveUselessStates())); wm = read_back(*work);
 		if (armed("C04") && !(mdl::trim_useless(wm) == wm)) { api_end(); throw Skip(); }      // the preparation failed to establish C04's precondition: that is C03's business, not a simulation defect
 	} else work.reset(new ET(*a.aut));
 	// dense numbering 0..n-1 of the occurring states: either in visiting order (what the CLI does) or a drawn bijection
 	std::map<long, long> m; ET dense;
-	if (s.arg(3) & 1) {
+	if (direct) { }
+	else if (s.arg(3) & 1) {
 		StateMap sm; StateType cnt = 0;
 		VATA::AutBase::StateToStateTranslWeak tr(sm, [&cnt](const StateType&) { return cnt++; });
 		dense = work->ReindexStates(tr);
@@ -1038,16 +1082,16 @@ void op_sim(const Step& s) {
 		dense = work->ReindexStates(f);
 	}
 	TA dm = mdl::rename(wm, m); size_t n = dm.states().size();
-	if (armed("C04")) { TA seen = read_back(dense); if (!(seen == dm)) { api_end(); throw Skip(); } }      // the automaton the simulation is computed on must be the one the oracle judges (renaming is C14's business)
+	if (armed("C04") && !direct) { TA seen = read_back(dense); if (!(seen == dm)) { api_end(); throw Skip(); } }      // the automaton the simulation is computed on must be the one the oracle judges (renaming is C14's business)
 	if (n == 0) throw Skip();
 	VATA::SimParam sp; sp.SetNumStates(n);
 	sp.SetRelation(up ? VATA::SimParam::e_sim_relation::TA_UPWARD : VATA::SimParam::e_sim_relation::TA_DOWNWARD);
-	VATA::AutBase::StateDiscontBinaryRelation rel = dense.ComputeSimulation(sp);
+	VATA::AutBase::StateDiscontBinaryRelation rel = direct ? a.aut->ComputeSimulation(sp) : dense.ComputeSimulation(sp);
 	api_end();
 	if (armed("C04")) {
 		count(c_oracle_evals);
 		mdl::Rel want = up ? mdl::up_sim(dm) : mdl::down_sim(dm);
-		const std::string site = up ? "et_sim:up" : "et_sim:down";
+		const std::string site = std::string(up ? "et_sim:up" : "et_sim:down") + (direct ? ":own-object" : "");
 		for (long q : dm.states()) for (long p : dm.states()) {
 			bool g; try { g = rel.get(size_t(q), size_t(p)); } catch (const std::exception& e) { violation("C04.relation-domain", site, "relation cannot be queried for an occurring state: " + std::string(e.what())); return; }
 			bool w = want.count(std::make_pair(q, p)) > 0; count(c_sim_pairs_checked);
@@ -1259,7 +1303,7 @@ void register_expl_ops() {
 	register_op("et_union", op_union); register_op("et_union_disj", op_union_disj);
 	register_op("et_isect", op_isect); register_op("et_isect_bu", op_isect_bu);
 	register_op("et_unreach", op_unreach); register_op("et_useless", op_useless); register_op("et_is_empty", op_is_empty);
-	register_op("et_reduce", op_reduce); register_op("et_complement", op_complement); register_op("et_witness", op_witness);
+	register_op("et_reduce", op_reduce); register_op("et_complement", op_complement); register_op("et_complement_local", op_complement_local); register_op("et_witness", op_witness);
 	register_op("et_reindex", op_reindex); register_op("et_reindex_into", op_reindex_into);
 	register_op("et_collapse", op_collapse); register_op("et_transl_syms", op_transl_syms);
 	register_op("et_sim", op_sim); register_op("et_incl", op_incl); register_op("et_incl_all", op_incl_all);
